@@ -310,3 +310,24 @@ pub proof fn lemma_c12_forward(x: nat, y: nat, a: nat, cr: nat, n1: nat, sp1: na
         /*[C12 quote.reverse.witness]*/ assert(rev_ok(deps.querier.world(), human_of(pair_info.contract_addr.0@), pools[0].info, pools[1].info, commission_rate.0.v(), ask_asset, offer_amount));
     }
 //%end
+
+// ---- instantiation and self-description (C16 / C17: what the pair reports about itself is what the factory told it) ----
+pub mod tokenmsg {
+use super::*;
+//%item packages/haloswap/src/token.rs struct InstantiateMsg
+}
+use tokenmsg::InstantiateMsg as TokenInstantiateMsg;
+//%fn contracts/halo-pair/src/contract.rs | - | instantiate
+//%%sig
+    ensures
+        /*[C14,C17 init.factory-is-creator]*/ r is Ok ==> final(deps.storage).config is Some && final(deps.storage).config->Some_0.halo_factory.0@ == info.sender.0@,
+        /*[C16,C17 init.stores-what-it-was-told]*/ r is Ok ==> final(deps.storage).pair_info is Some && ({ let p = final(deps.storage).pair_info->Some_0;
+            raw_of(msg.asset_infos[0], p.asset_infos[0]) && raw_of(msg.asset_infos[1], p.asset_infos[1]) && p.asset_decimals == msg.asset_decimals
+            && p.requirements == msg.requirements && p.commission_rate == msg.commission_rate && p.contract_addr.0@ == canon_of(env.contract.address.0@) })
+            && final(deps.storage).commission == Some(msg.commission_rate),
+//%end
+//%fn contracts/halo-pair/src/contract.rs | - | query_pair_info
+//%%sig
+    ensures
+        /*[C16,C17 self-report.is-stored-record]*/ r is Ok ==> deps.storage.pair_info is Some && normal_of(deps.storage.pair_info->Some_0, r->Ok_0),
+//%end
